@@ -196,6 +196,7 @@ K_PL_DROP_SHAPE = "polars-drop-invalid-rows-check-output-shape-mismatch"
 K_PL_ADD_SELECT = "polars-add-missing-columns-final-select-of-absent-or-filtered-column"
 K_PL_ABSENT = "polars-core-parsers-touch-absent-column"
 K_PL_DEFAULT_TYPE = "polars-default-fill-on-differently-typed-column"
+K_PD_DEFAULT_TYPE = "pandas-default-fill-on-differently-typed-column"
 K_PL_SCHEMA_ONLY = "polars-schema-only-coercion-failure-surfaces-at-collect"
 K_NONFRAME = "non-dataframe-argument-not-typeerror"
 K_REGEX_MI = "regex-column-on-multiindex-columns-raises-indexerror"
@@ -326,7 +327,13 @@ def classify_leak(d, o):
             and last in ("api/polars/container.py:validate",
                          "backends/polars/base.py:subsample")):
         return K_PL_SCHEMA_ONLY
-    if (name in ("ValueError", "ShapeError") and "larger sample than" in msg
+    if (pandas and name == "TypeError" and "Invalid value" in msg
+            and last.endswith((":set_defaults", ":set_default"))
+            and any(f.get("default") is not None for f in fields)):
+        return K_PD_DEFAULT_TYPE
+    if (name in ("ValueError", "ShapeError")
+            and ("larger sample than" in msg
+                 or "must be greater than 0 unless no samples" in msg)
             and (any_drop(d) or sp.get("strict") == "filter") and call.get("sample")
             and call["sample"] <= len((d["table"]["columns"] or [{"values": []}])[0]["values"])
             and last.endswith("/base.py:subsample")):
@@ -567,29 +574,39 @@ def run(run, ctx):
     run.floor("fault_points_enumerated", 20)
 
 
+# floors = about a quarter of what a quick run measures on the unchanged tree
+# (thorough runs ~28x the part-A cases and 25x the part-B cases of quick)
+QUICK_FLOORS = {
+    "channel_evaluated:A:pandas": 1100, "channel_evaluated:A:polars": 550,
+    "channel_evaluated:B:pandas": 550, "channel_evaluated:B:polars": 250,
+    "fault_points_enumerated": 850, "check_fault_evaluated": 520,
+    "check_fault_reported_as_CHECK_ERROR": 400,
+    "other_fault_evaluated": 300, "state_evaluated:B": 850,
+    "B:cases_fully_enumerated": 140,
+    "fault_points:pandas": 580, "fault_points:polars": 250,
+    "fault_points:check_vec": 140, "fault_points:check_elem": 240,
+    "fault_points:check_groupby": 30, "fault_points:check_frame": 60,
+    "fault_points:check_frame_row": 40, "fault_points:groupby_fn": 20,
+    "fault_points:parser": 40, "fault_points:parser_elem": 40,
+    "fault_points:parser_frame": 16, "fault_points:dtype_check": 110,
+    "fault_points:dtype_coerce": 55,
+    "A:tag:drop_invalid_rows": 600, "A:tag:add_missing_columns": 380,
+    "A:tag:coerce": 500, "A:tag:dtype=None+coerce": 200,
+    "A:tag:frame-dtype": 150, "A:tag:strict=filter": 240,
+    "A:tag:empty-rows": 130, "A:tag:no-columns": 60,
+    "A:tag:duplicate-labels": 140, "A:tag:non-string-label": 180,
+    "A:tag:regex+non-string-label": 110, "A:tag:multiindex-columns": 50,
+    "A:tag:retyped-column": 500, "A:tag:cells": 170, "A:tag:LazyFrame": 300,
+    "A:tag:frame-level-check": 300, "A:tag:joint-unique": 200,
+    "A:tag:subsample": 250, "A:tag:depth": 190, "A:tag:arg": 65,
+    "A:tag:duplicate-index-labels": 45, "A:tag:inplace": 100,
+}
+
+
 def finalize(run, ctx):
-    q = ctx.tier == "quick"
-    run.floors.update({
-        "channel_evaluated:A:pandas": 1000 if q else 30000,
-        "channel_evaluated:A:polars": 500 if q else 15000,
-        "fault_points_enumerated": 900 if q else 22000,
-        "check_fault_evaluated": 500 if q else 12000,
-        "other_fault_evaluated": 150 if q else 4000,
-        "state_evaluated:B": 900 if q else 22000,
-        "B:cases_fully_enumerated": 100 if q else 3000,
-        "fault_points:pandas": 600 if q else 14000,
-        "fault_points:polars": 200 if q else 5000,
-    })
-    for k in ("check_vec", "check_elem", "check_groupby", "check_frame",
-              "check_frame_row", "groupby_fn", "parser", "parser_elem",
-              "parser_frame", "dtype_check", "dtype_coerce"):
-        run.floors[f"fault_points:{k}"] = 8 if q else 200
-    for t in ("drop_invalid_rows", "add_missing_columns", "coerce",
-              "dtype=None+coerce", "empty-rows", "no-columns",
-              "duplicate-labels", "non-string-label", "regex+non-string-label",
-              "retyped-column", "LazyFrame", "frame-level-check", "joint-unique",
-              "depth", "arg"):
-        run.floors["A:tag:" + t] = 15 if q else 400
+    mult = 1 if ctx.tier == "quick" else 24
+    for k, v in QUICK_FLOORS.items():
+        run.floors[k] = v * mult
     run.extra["fault_points_enumerated"] = int(
         run.counters.get("fault_points_enumerated", 0))
     run.extra["cases_with_all_fault_points_enumerated"] = int(
